@@ -202,6 +202,15 @@ m("run-pytest-keeps-ci", "testing/_example.py", '            command_env.pop("CI
 m("report-overlap-revert", "pytest_plugin.py", "                cr.clear_replacements()\n                apply_all(used_changes + changes[flag], cr)", "                apply_all(changes[flag], cr)", ["C19", "C04"], "revert of the cumulative report fix")
 
 
+# ---- C15
+m("persist-after-fix-all", "pytest_plugin.py", "                    for external_name in used:\n                        state().storage.persist(external_name)\n\n                cr.fix_all()", "                    cr.__dict__.setdefault('_tp', []).extend(used)\n\n                cr.fix_all()\n                for external_name in cr.__dict__.get('_tp', []):\n                    state().storage.persist(external_name)", ["C15"], "externals are persisted after the files were rewritten")
+m("black-exception-not-caught", "_format.py", "        try:\n            return format_str(text, mode=mode)\n        except:", "        try:\n            return format_str(text, mode=mode)\n        except KeyError:", ["C15"], "a crash of black is not turned into a reported problem")
+m("state-not-popped", "pytest_plugin.py", "        return\n    finally:\n        leave_snapshot_context()", "        leave_snapshot_context()\n        return\n    finally:\n        pass", ["C15"], "the session state is only popped when session end succeeds")
+m("format-output-unchecked", "_format.py", "        if not is_valid_result(text, formatted_text):", "        if False:", ["C15"], "revert of the format-command output validation")
+m("nonzero-exit-ignored", "_format.py", "        if result.returncode != 0:", "        if result.returncode not in (0, 3):", [], "format-command exit status 3 is treated as success (the output validation still catches it; informational)")
+m("write-in-two-steps", "_rewrite_code.py", '            code.write(new_code.encode())', '            data = new_code.encode()\n            code.write(data[: len(data) // 2])\n            code.flush()\n            self._check()\n            code.write(data[len(data) // 2 :])', ["C15"], "the content is written in two steps with a call in between (fault there leaves half a file)")
+
+
 def make_copy(mut):
     base = os.environ.get("VERIF_TMP") or ("/dev/shm" if os.path.isdir("/dev/shm") else tempfile.gettempdir())
     d = Path(tempfile.mkdtemp(prefix="mutant-", dir=base))
